@@ -1,6 +1,7 @@
 import Huginn.Model.FlowProgs
 import Huginn.Lemmas.HttpFlowMap
 import Huginn.Lemmas.HttpFlowKey
+import Huginn.Lemmas.HttpFlowReset
 import Huginn.Lemmas.Flow
 import Huginn.Props.C07
 import Huginn.Props.C08FlowBridge
@@ -137,7 +138,7 @@ def toFlow (f : HttpFlow.TcpFlow) : TcpFlow :=
 /-- The segment view of a packet (`t`, `w`: arrival instants, not read by the HTTP flow logic). -/
 def toSeg (p : HttpFlow.Pkt) (t w : Nat) : Seg :=
   { src := ⟨p.srcIp, p.srcPort⟩, dst := ⟨p.dstIp, p.dstPort⟩, seq := p.seq,
-    syn := HttpFlow.hasFlag p.flags HttpFlow.SYN, ack := false,
+    syn := HttpFlow.hasFlag p.flags HttpFlow.SYN, ack := HttpFlow.hasFlag p.flags HttpFlow.ACK,
     fin := HttpFlow.hasFlag p.flags HttpFlow.FIN, rst := HttpFlow.hasFlag p.flags HttpFlow.RST,
     payload := p.payload, time := t, wall := w, tsval := none }
 
@@ -454,21 +455,19 @@ theorem found_bridge {now : Nat} {m : TtlMap FlowKey TcpFlow} {f : HttpFlow.Flow
 
 /-! ### one packet, any case; packet histories -/
 
-/-- **One packet.** With tables that agree through `get`, the flows stored under their opener's key
-(`KeyInv`, an invariant of `HttpFlow.step`) and — for a flow-opening SYN — room in the cache, the cache
-program and `HttpFlow.step` leave agreeing tables and report the same request / response. -/
-theorem step_bridge {now : Nat} {m : TtlMap FlowKey TcpFlow} {f : HttpFlow.FlowMap} (hrel : Rel now m f)
+/-- One packet, the dispatch after the SYN reset: `httpDispatch` and `HttpFlow.step`. -/
+theorem dispatch_bridge {now : Nat} {m : TtlMap FlowKey TcpFlow} {f : HttpFlow.FlowMap} (hrel : Rel now m f)
     (hki : HttpFlow.KeyInv f) (p : HttpFlow.Pkt) (w : Nat)
-    (hne : Huginn.Props.C07.ProgNoEvict (httpProg (params P) (toSeg p now w)) now m ()) :
-    Rel now ((httpProg (params P) (toSeg p now w)).run now m ()).1 (HttpFlow.step P f p).map ∧
-      ((httpProg (params P) (toSeg p now w)).run now m ()).2.2.req = (HttpFlow.step P f p).request ∧
-      ((httpProg (params P) (toSeg p now w)).run now m ()).2.2.resp = (HttpFlow.step P f p).response := by
+    (hne : Huginn.Props.C07.ProgNoEvict (httpDispatch (params P) (toSeg p now w)) now m ()) :
+    Rel now ((httpDispatch (params P) (toSeg p now w)).run now m ()).1 (HttpFlow.step P f p).map ∧
+      ((httpDispatch (params P) (toSeg p now w)).run now m ()).2.2.req = (HttpFlow.step P f p).request ∧
+      ((httpDispatch (params P) (toSeg p now w)).run now m ()).2.2.resp = (HttpFlow.step P f p).response := by
   have hk1 : (⟨(toSeg p now w).src, (toSeg p now w).dst⟩ : FlowKey) = toKey p.key := rfl
   have hk2 : (⟨(toSeg p now w).dst, (toSeg p now w).src⟩ : FlowKey) = toKey p.key.rev := rfl
-  unfold httpProg at hne
+  unfold httpDispatch at hne
   simp only [Huginn.Props.C07.ProgNoEvict, hk1, hk2] at hne
   rw [hrel p.key] at hne
-  unfold httpProg HttpFlow.step HttpFlow.lookup
+  unfold httpDispatch HttpFlow.step HttpFlow.lookup
   simp only [Prog.run, hk1, hk2]
   rw [hrel p.key]
   cases h1 : f.get p.key with
@@ -506,6 +505,48 @@ theorem step_bridge {now : Nat} {m : TtlMap FlowKey TcpFlow} {f : HttpFlow.FlowM
           exact hrel k
       · simp only [hs, Bool.false_eq_true, if_false, Prog.run]
         exact ⟨hrel, by trivial, by trivial⟩
+
+theorem rel_remove {now : Nat} {m : TtlMap FlowKey TcpFlow} {f : HttpFlow.FlowMap} (hrel : Rel now m f)
+    (k : HttpFlow.FlowKey) : Rel now (m.remove (toKey k)) (f.erase k) := by
+  intro k'
+  by_cases hk : k' = k
+  · subst hk; rw [get_remove, if_pos rfl, HttpFlow.FlowMap.get_erase_eq]; rfl
+  · rw [get_remove, if_neg (fun e => hk (toKey_inj e)), HttpFlow.FlowMap.get_erase_ne _ _ _ hk]
+    exact hrel k'
+
+/-- **One packet.** With tables that agree through `get`, the flows stored under their opener's key
+(`KeyInv`, an invariant of `HttpFlow.stepS`) and — for a flow-opening SYN — room in the cache, the cache
+program and `HttpFlow.stepS` (both with the SYN reset) leave agreeing tables and report the same request /
+response. -/
+theorem step_bridge {now : Nat} {m : TtlMap FlowKey TcpFlow} {f : HttpFlow.FlowMap} (hrel : Rel now m f)
+    (hki : HttpFlow.KeyInv f) (p : HttpFlow.Pkt) (w : Nat)
+    (hne : Huginn.Props.C07.ProgNoEvict (httpProg (params P) (toSeg p now w)) now m ()) :
+    Rel now ((httpProg (params P) (toSeg p now w)).run now m ()).1 (HttpFlow.stepS P f p).map ∧
+      ((httpProg (params P) (toSeg p now w)).run now m ()).2.2.req = (HttpFlow.stepS P f p).request ∧
+      ((httpProg (params P) (toSeg p now w)).run now m ()).2.2.resp = (HttpFlow.stepS P f p).response := by
+  have hk1 : (⟨(toSeg p now w).src, (toSeg p now w).dst⟩ : FlowKey) = toKey p.key := rfl
+  have hk2 : (⟨(toSeg p now w).dst, (toSeg p now w).src⟩ : FlowKey) = toKey p.key.rev := rfl
+  have hc : ((toSeg p now w).syn && !(toSeg p now w).ack) =
+      (HttpFlow.hasFlag p.flags HttpFlow.SYN && !HttpFlow.hasFlag p.flags HttpFlow.ACK) := rfl
+  have hseq : (toSeg p now w).seq = p.seq := rfl
+  unfold httpProg at hne ⊢
+  unfold HttpFlow.stepS HttpFlow.reset
+  rw [hc] at hne ⊢
+  by_cases hps : (HttpFlow.hasFlag p.flags HttpFlow.SYN && !HttpFlow.hasFlag p.flags HttpFlow.ACK) = true
+  · simp only [hps, if_true, Prog.run, Huginn.Props.C07.ProgNoEvict, hk1, hk2, hseq] at hne ⊢
+    rw [hrel p.key] at hne ⊢
+    have hisn : (Option.map (fun x : TcpFlow => x.clientIsn) (Option.map toFlow (f.get p.key)) == some p.seq) =
+        (Option.map (fun x : HttpFlow.TcpFlow => x.clientIsn) (f.get p.key) == some p.seq) := by
+      cases f.get p.key <;> rfl
+    rw [hisn] at hne ⊢
+    by_cases hr : (Option.map (fun x : HttpFlow.TcpFlow => x.clientIsn) (f.get p.key) == some p.seq) = true
+    · simp only [hr, if_true] at hne ⊢
+      exact dispatch_bridge P hrel hki p w hne
+    · simp only [hr, Bool.false_eq_true, if_false, Prog.run, Huginn.Props.C07.ProgNoEvict] at hne ⊢
+      exact dispatch_bridge P (rel_remove (rel_remove hrel _) _)
+        (HttpFlow.erase_keyInv _ _ (HttpFlow.erase_keyInv _ _ hki)) p w hne
+  · simp only [hps, Bool.false_eq_true, if_false] at hne ⊢
+    exact dispatch_bridge P hrel hki p w hne
 
 theorem get_time_indep {κ σ : Type} [DecidableEq κ] (m : TtlMap κ σ) (t t' : Nat) (k : κ)
     (h : ∀ e ∈ m.es, t ≤ e.exp ∧ t' ≤ e.exp) : m.get t k = m.get t' k := by
@@ -571,24 +612,33 @@ theorem httpProg_allTtl {γ Q R : Type} (H : HttpParams γ Q R) (s : Seg) : AllT
     split
     · exact .set _ _ _ (hbody _ _ _)
     · exact hbody _ _ _
-  unfold httpProg
-  refine .get _ _ (fun r => ?_)
-  cases r with
-  | some f => exact hwith _ _ _
-  | none =>
+  have hd : AllTtl H.ttlMs (httpDispatch H s) := by
+    unfold httpDispatch
     refine .get _ _ (fun r => ?_)
     cases r with
     | some f => exact hwith _ _ _
     | none =>
-      dsimp only
-      split
-      · exact .insert _ _ _ (.ret _)
-      · exact .ret _
+      refine .get _ _ (fun r => ?_)
+      cases r with
+      | some f => exact hwith _ _ _
+      | none =>
+        dsimp only
+        split
+        · exact .insert _ _ _ (.ret _)
+        · exact .ret _
+  unfold httpProg
+  split
+  · refine .get _ _ (fun f => ?_)
+    split
+    · exact hd
+    · exact .remove _ _ (.remove _ _ hd)
+  · exact hd
 
 /-- **Packet histories.** For pure parsers, every capacity and every packet history whose arrival
 instants lie within one time-to-live window and which stays within capacity (`NoEvict`), the cache
-program analyzer reports, packet by packet, exactly what `HttpFlow.run` — the object of C09's
-theorems — reports. -/
+program analyzer reports, packet by packet, exactly what `HttpFlow.runS` reports (`runS` is `run`, the
+object of C09's theorems, with the SYN reset; on one connection from an empty table the two coincide,
+`HttpFlow.runS_conn`). -/
 theorem http_trace_bridge (a : Nat) (ps : List (HttpFlow.Pkt × Nat × Nat))
     (hwin : ∀ x ∈ ps, a ≤ x.2.1 ∧ x.2.1 ≤ a + (params P).ttlMs)
     (m : TtlMap FlowKey TcpFlow) (f : HttpFlow.FlowMap)
@@ -597,7 +647,7 @@ theorem http_trace_bridge (a : Nat) (ps : List (HttpFlow.Pkt × Nat × Nat))
       (ps.map (fun x => toSeg x.1 x.2.1 x.2.2))) :
     ((httpAnalyzer (params P)).runOuts (m, ()) (ps.map (fun x => toSeg x.1 x.2.1 x.2.2))).map
         (fun po => (po.2.req, po.2.resp)) =
-      HttpFlow.run P f (ps.map (·.1)) := by
+      HttpFlow.runS P f (ps.map (·.1)) := by
   induction ps generalizing m f with
   | nil => rfl
   | cons x ps ih =>
@@ -613,17 +663,17 @@ theorem http_trace_bridge (a : Nat) (ps : List (HttpFlow.Pkt × Nat × Nat))
     obtain ⟨h1, h2, h3⟩ := step_bridge P hrelt hki p w hne1
     have hlb' := Huginn.Props.C08Bridge.run_exp_lb (httpProg (params P) (toSeg p t w))
       (httpProg_allTtl _ _) t (a + (params P).ttlMs) (by omega) m () hlb
-    have hrela : Rel a ((httpProg (params P) (toSeg p t w)).run t m ()).1 (HttpFlow.step P f p).map := by
+    have hrela : Rel a ((httpProg (params P) (toSeg p t w)).run t m ()).1 (HttpFlow.stepS P f p).map := by
       intro k
       rw [← h1 k]
       exact get_time_indep _ a t _ (fun e he => by have := hlb' e he; omega)
-    have := ih (fun y hy => hwin y (by simp [hy])) _ _ hlb' hrela (HttpFlow.step_keyInv P f p hki)
+    have := ih (fun y hy => hwin y (by simp [hy])) _ _ hlb' hrela (HttpFlow.stepS_keyInv P f p hki)
       hne2
-    simp only [List.map_cons, Analyzer.runOuts, Analyzer.step, httpAnalyzer, HttpFlow.run]
+    simp only [List.map_cons, Analyzer.runOuts, Analyzer.step, httpAnalyzer, HttpFlow.runS]
     simp only [httpAnalyzer] at this
     have hhead : (((httpProg (params P) (toSeg p t w)).run (toSeg p t w).time m ()).2.2.req,
         ((httpProg (params P) (toSeg p t w)).run (toSeg p t w).time m ()).2.2.resp) =
-        ((HttpFlow.step P f p).request, (HttpFlow.step P f p).response) := Prod.ext h2 h3
+        ((HttpFlow.stepS P f p).request, (HttpFlow.stepS P f p).response) := Prod.ext h2 h3
     rw [hhead]
     exact congrArg (List.cons _) this
 
@@ -634,7 +684,7 @@ theorem http_trace_bridge_fresh (a cap : Nat) (ps : List (HttpFlow.Pkt × Nat ×
       (ps.map (fun x => toSeg x.1 x.2.1 x.2.2))) :
     ((httpAnalyzer (params P)).runOuts ({ cap := cap }, ()) (ps.map (fun x => toSeg x.1 x.2.1 x.2.2))).map
         (fun po => (po.2.req, po.2.resp)) =
-      HttpFlow.run P [] (ps.map (·.1)) :=
+      HttpFlow.runS P [] (ps.map (·.1)) :=
   http_trace_bridge P a ps hwin { cap := cap } [] (by intro e he; cases he) (by intro k; rfl)
     HttpFlow.keyInv_nil hne
 
